@@ -75,3 +75,20 @@ Definition run_checks (cat:catalogue) (tax:Q -> pv -> res pv) (vals inps:list (s
           ((if (code =? 0)%nat then [] else [(i, code)]) ++ go (S i) r)%list
       end in
   go 0%nat checks.
+
+(* probes: each with its own small store *)
+Definition probe := (string * option string * string * list (string * pv) * list (string * pv) * list string * expected)%type.
+Definition probe_code (cat:catalogue) (tax:Q -> pv -> res pv) (p:probe) : nat :=
+  match p with
+  | (fname, inst, lname, vals, inps, forms, x) =>
+      match eval_line cat tax vals inps forms fname inst lname with
+      | None => 1%nat
+      | Some (t, r) => agree false t r x
+      end
+  end.
+Definition bad_probes (cat:catalogue) (tax:Q -> pv -> res pv) (l:list probe) : list nat :=
+  let fix go (i:nat) (l:list probe) : list nat :=
+      match l with [] => [] | p :: r => ((if (probe_code cat tax p =? 0)%nat then [] else [i]) ++ go (S i) r)%list end in
+  go 0%nat l.
+Definition probes_ok (cat:catalogue) (tax:Q -> pv -> res pv) (l:list probe) : bool :=
+  forallb (fun p => (probe_code cat tax p =? 0)%nat) l.
